@@ -19,7 +19,7 @@ PROPS = {
               'non-trivial = at least one reach probe hit (exhaustion, cursor wrap, reuse after release, move onto live owner, ...); '
               'distinct = distinct FNV-1a hashes of the full event log'),
         expect_probes=['token_space_exhausted', 'cursor_wrapped', 'token_reused_after_release', 'move_assign_onto_live_owner',
-                       'lookup_of_released_token', 'owner_moved'],
+                       'lookup_of_released_token', 'owner_moved', 'owner_move_constructed_from_inert_source'],
         components=COMPONENTS_SIM,
         assumptions=['uint8_t instantiation of app_pointer_map is representative of the uint32_t one apart from the limit (same template code)',
                      'limit 255 for uint8_t is excluded: the scan loop cannot terminate there by construction of the type, not by the algorithm',
@@ -35,9 +35,9 @@ MEM_RULE = ('one run = one seeded plan (<=60 ops) over 1-4 sim-backend sandboxes
             'hostile guest writes of arbitrary 32-bit patterns into cells, hostile function results and callback arguments, assign_raw_pointer / '
             'UNSAFE_accept_pointer over 14 address classes, registrations and by-name invocations across incarnations; '
             'non-trivial = at least one fault fired or reach probe hit; distinct = distinct FNV-1a hashes of the event log')
-MEM_WORLD = dict(world='mem', variants=['plain', 'p64'], quick=dict(count=128000, time_limit=60, variant_share={'plain': 0.6, 'p64': 0.4}),
-                 thorough=dict(count=8000000, time_limit=900, variant_share={'plain': 0.6, 'p64': 0.4}))
-MEM_ASSUME = ['two builds: 32-bit pointer representation (plain) and 64-bit representation with 32-bit long (p64), so that conversions that depend on the representation width are exercised both ways',
+MEM_WORLD = dict(world='mem', variants=['plain', 'p64', 'pvoid'], quick=dict(count=140000, time_limit=60, variant_share={'plain': 0.5, 'p64': 0.25, 'pvoid': 0.25}),
+                 thorough=dict(count=8000000, time_limit=900, variant_share={'plain': 0.5, 'p64': 0.25, 'pvoid': 0.25}))
+MEM_ASSUME = ['three builds: 32-bit pointer representation (plain), 64-bit integer representation with 32-bit long (p64) and a representation of C++ pointer type that still is an offset, not the host address (pvoid), so that conversions that depend on the width or on the kind of the representation type are exercised each way',
               'the sim backend maps every 32-bit representation into its region (offset modulo size), as the 4 GiB reservations of real plug-ins do; '
               'offset 0 shares its representation with null and is exempt from round-trip checks',
               'oracle region table is the simulator\'s own (sim::g_regions), never the backend predicates',
@@ -82,7 +82,7 @@ PROPS.update({
                                'sixty_or_more_simultaneous_registrations', 'F9_unrepresentable_callback_result', 'sandbox_recreated'],
                 assumptions=CB_ASSUME),
     'C13': dict(level='exploration', worlds=[CB_WORLD, MEM_WORLD, 'TH_FOR_C13'], rule=CB_RULE + '; in the threads world (C18) a third of the runs also share one sim sandbox between all threads for registration / unregistration of a 3-function pool only, with the model "never two live owners of one function" checked at every accepted registration and "reachable == live owners" at quiescence', components=CB_COMPONENTS,
-                expect_probes=['move_assign_onto_live_owner', 'move_assign_involving_stale_owner', 'self_move_assign', 'owner_moved',
+                expect_probes=['move_assign_onto_live_owner', 'move_assign_involving_stale_owner', 'self_move_assign', 'owner_moved', 'owner_move_constructed_from_inert_source',
                                'owner_released_after_destroy_sandbox', 'F7_capacity_exhausted', 'duplicate_registration_attempted',
                                'guest_called_vacant_or_foreign_entry', 'F12_destroy_sandbox_with_live_owners'],
                 assumptions=CB_ASSUME),
@@ -104,6 +104,15 @@ PROPS.update({
                              'each argument is given in its parameter\'s own type, as the statement says',
                              'the guest functions are host functions with guest-ABI signatures (stub); dylib/noop run a real C library']),
 })
+
+# C04 also runs the invoke world: function pointers (null included) as arguments and results with the sandbox explicitly available
+PROPS['C04']['worlds'] = [MEM_WORLD, INV_WORLD]
+PROPS['C04']['rule'] = MEM_RULE + ('; in the invoke world (see C11) function pointers cross in both directions - address of a sandbox function, null tainted function '
+                                   'pointer, nullptr literal in; arbitrary table index or 0 out - against a backend that answers garbage when asked to translate null')
+PROPS['C04']['expect_probes'] = PROPS['C04']['expect_probes'] + ['null_function_pointer_passed_to_sandbox', 'null_function_pointer_returned_by_sandbox',
+                                                                 'pointers_of_two_sandboxes_compared', 'equal_representations_in_two_sandboxes_compared']
+PROPS['C03']['expect_probes'] = PROPS['C03']['expect_probes'] + ['static_array_indexed_with_narrow_integer_type']
+PROPS['C11']['expect_probes'] = PROPS['C11']['expect_probes'] + ['name_buffer_reused_after_lookup']
 
 TOCTOU_RULE = ('one run = one copy_and_verify scenario (18 variants: string with unique_ptr / std::string verifier from a tainted pointer and from a pointer cell; ranges of '
                'char/short/int/long long/double; pointer-to-primitive, pointer cell, fundamental in a cell, registered struct, fixed array field, address, buffer address; '
